@@ -123,6 +123,15 @@ def _root_.Pyttb.ML.Res.toColumn [Add α] [Zero α] (r : ML.Res α) (len : Nat) 
   | .scalar v => List.replicate len v
   | r => (List.range len).map fun k => r.get [k]
 
+/-- Column `r` of `sptensor.mttkrp`: a `ttv` with column `r` of every factor but the `n`-th. -/
+def mttkrpCol [Add α] [Mul α] [Zero α] [BEq α] (S : Sparse α) (fs : List (Mat α)) (n r : Nat) :
+    Except Reject (List α) :=
+  let Z : List (List α) := (List.range S.shape.length).map fun i =>
+    if i != n then (fs.getD i []).map (fun row => row.getD r 0) else []
+  match S.ttv Z none (some [Int.ofNat n]) with
+  | .error e => .error e
+  | .ok res => .ok (res.toColumn (S.shape.getD n 0))
+
 /-- `sptensor.mttkrp(U, n)`: the mode and the factor shapes `(shape[i], R)` are validated up
 front, then one `ttv` with all but mode `n` per column. -/
 def mttkrp [Add α] [Mul α] [Zero α] [BEq α] (S : Sparse α) (U : KOperand α) (n : Nat) : Except Reject (Mat α) :=
@@ -134,16 +143,9 @@ def mttkrp [Add α] [Mul α] [Zero α] [BEq α] (S : Sparse α) (U : KOperand α
     if N < 2 then .error .reject else
     let R := if n == 0 then (fs.getD 1 []).ncols else (fs.getD 0 []).ncols
     if (List.range N).any (fun i => i != n && !(fs.getD i []).isShape (S.shape.getD i 0) R) then .error .reject else
-    let len := S.shape.getD n 0
-    let cols : Except Reject (List (List α)) := (List.range R).mapM fun r =>
-      let Z : List (List α) := (List.range N).map fun i =>
-        if i != n then (fs.getD i []).map (fun row => row.getD r 0) else []
-      match S.ttv Z none (some [Int.ofNat n]) with
-      | .error e => .error e
-      | .ok res => .ok (res.toColumn len)
-    match cols with
+    match (List.range R).mapM (S.mttkrpCol fs n) with
     | .error e => .error e
-    | .ok cs => .ok ((List.range len).map fun i => cs.map fun c => c.getD i 0)
+    | .ok cs => .ok ((List.range (S.shape.getD n 0)).map fun i => cs.map fun c => c.getD i 0)
 
 /-- `sptensor.innerprod(sptensor)` (shapes are compared before the no-nonzeros shortcut). -/
 def innerprodSparse [Add α] [Mul α] [Zero α] (S O : Sparse α) : Except Reject α :=
